@@ -976,6 +976,51 @@ func runK7scen(r *rng, n int) {
 			s.close()
 			emit("k7scen name=simultaneous-first-walks-share-one-path-node => overlap=%d", overlap)
 		}
+		// a Tflush naming its own tag leaves no tag behind either
+		{
+			s := newK7(r, 1)
+			s.conns[0].write(s.frame(108, 55, map[string]interface{}{"OldTag": uint64(55)}))
+			self := 0
+			if tag, rt, _, ok := s.recvReply(0, 3*time.Second); ok && tag == 55 && rt == 109 {
+				self = 1
+			}
+			s.conns[0].write(s.frame(108, 56, map[string]interface{}{"OldTag": uint64(55)}))
+			fl := 0
+			if tag, rt, _, ok := s.recvReply(0, 2*time.Second); ok && tag == 56 && rt == 109 {
+				fl = 1
+			}
+			s.conns[0].write(s.frame(24, 55, map[string]interface{}{"fid": uint64(0)}))
+			again := 0
+			if tag, rt, _, ok := s.recvReply(0, 2*time.Second); ok && tag == 55 && rt == 25 {
+				again = 1
+			}
+			s.conns[0].c.Close()
+			stopped := 0
+			if s.conns[0].waitDone(5 * time.Second) {
+				stopped = 1
+			}
+			emit("k7scen name=self-flush-leaves-no-tag-behind => self=%d flush=%d reuse=%d stopped=%d", self, fl, again, stopped)
+		}
+		// a rename inside one directory that names the directory through two different fids (the fid
+		// and its clone) while a third fid is on the entry: answered, and the server stays alive
+		{
+			s := newK7(r, 1)
+			s.call(0, 110, map[string]interface{}{"fid": uint64(0), "newFID": uint64(1), "Names": []string{}})
+			s.walk(0, 0, 2, p9.ModeRegular|0644, "a")
+			ren := 0
+			s.send(0, 74, map[string]interface{}{"OldDirectory": uint64(0), "OldName": "a", "NewDirectory": uint64(1), "NewName": "b"})
+			if _, rt, _, ok := s.recvReply(0, 3*time.Second); ok && rt == 75 {
+				ren = 1
+			}
+			alive := 0
+			s.send(0, 24, map[string]interface{}{"fid": uint64(2)})
+			if _, rt, _, ok := s.recvReply(0, 3*time.Second); ok && rt == 25 {
+				alive = 1
+			}
+			s.conns[0].c.Close()
+			s.conns[0].waitDone(3 * time.Second)
+			emit("k7scen name=rename-in-one-directory-through-two-fids => renamed=%d alive=%d", ren, alive)
+		}
 		// a frame that cannot be decoded leaves no tag behind: a Tflush naming its tag is answered at
 		// once, and the tag can be used again
 		{
